@@ -402,8 +402,8 @@ func ruleResetCover(c *RC) *RuleResult {
 		r.unresolved("view-0 paths of the epoch writer")
 		return r
 	}
-	for i := 0; i < st.NumFields(); i++ {
-		f := c.Prog.fieldRole(st.Field(i), st.Field(i).Name())
+	for _, fv := range c.Prog.ctxFields() {
+		f := c.Prog.fieldRole(fv, fv.Name())
 		r.Sites++
 		if why, ok := carryOver[f]; ok {
 			r.ok("carry-over " + f + ": " + why)
@@ -938,14 +938,13 @@ func ruleViewResetCover(c *RC) *RuleResult {
 		return r
 	}
 	exits := c.exitsOf(ew)
-	st := c.Prog.Structs["Context"]
 	have := map[string]bool{}
-	for i := 0; i < st.NumFields(); i++ {
-		have[c.Prog.fieldRole(st.Field(i), st.Field(i).Name())] = true
+	for _, fv := range c.Prog.ctxFields() {
+		have[c.Prog.fieldRole(fv, fv.Name())] = true
 	}
 	// closed world: every Context field is classified as per-view or per-height; a new field must be reviewed and tabled
-	for i := 0; i < st.NumFields(); i++ {
-		f := c.Prog.fieldRole(st.Field(i), st.Field(i).Name())
+	for _, fv := range c.Prog.ctxFields() {
+		f := c.Prog.fieldRole(fv, fv.Name())
 		_, pv := perView[f]
 		_, ph := perHeight[f]
 		r.Sites++
@@ -1042,10 +1041,9 @@ func (c *RC) returnsCleared(fn *FuncInfo) bool {
 
 // collectionField: slice- or map-typed Context field
 func (c *RC) collectionField(name string) bool {
-	st := c.Prog.Structs["Context"]
-	for i := 0; i < st.NumFields(); i++ {
-		if st.Field(i).Name() == name {
-			switch st.Field(i).Type().Underlying().(type) {
+	for _, fv := range c.Prog.ctxFields() {
+		if fv.Name() == name {
+			switch fv.Type().Underlying().(type) {
 			case *types.Slice, *types.Map:
 				return true
 			}
